@@ -271,7 +271,24 @@ func runC09(p *an.Prog, r *an.Run, tier string) {
 	r.Check(len(bad) == 0, "registered-is-caller", "(*pool.VipnodePool).connect", conn.Pos(), "remoteHosts[nodeID] = CtxService(ctx) and its reverse entry", "%s", strings.Join(dedup(bad), "; "))
 
 	// ---- disconnect-hook
-	srv := p.Method("", "server", "ServeHTTP")
+	// the function of the HTTP handler type that runs the connection's serve loop (ServeHTTP itself, or a helper it was moved to)
+	var srv *ssa.Function
+	for _, fn := range p.Repo {
+		if fn.Pkg == nil || fn.Pkg.Pkg.Path() != an.Module || fn.Signature.Recv() == nil {
+			continue
+		}
+		if n := namedOf(fn.Signature.Recv().Type()); n == nil || n.Obj().Name() != "server" {
+			continue
+		}
+		for _, c := range an.Calls(fn, false) {
+			if an.IsMethod(an.CallObj(c), pkgRPC, "Remote", "Serve") {
+				srv = fn
+			}
+		}
+	}
+	if srv == nil {
+		srv = p.Method("", "server", "ServeHTTP")
+	}
 	if srv == nil {
 		r.Undec("disconnect-hook", "main.server.ServeHTTP", token.NoPos, "anchor not found")
 	} else {
@@ -345,7 +362,7 @@ func runC09(p *an.Prog, r *an.Run, tier string) {
 				bad = append(bad, "onDisconnect is never called with the served connection")
 			}
 		}
-		r.Check(len(bad) == 0, "disconnect-hook", "(*main.server).ServeHTTP", srv.Pos(), "every exit after Serve() calls onDisconnect(remote)", "%s", strings.Join(bad, "; "))
+		r.Check(len(bad) == 0, "disconnect-hook", "(*main.server).ServeHTTP", srv.Pos(), "every exit after Serve() calls onDisconnect(remote) ["+an.FuncName(srv)+"]", "%s", strings.Join(bad, "; "))
 	}
 	runPool := p.Func("", "runPool")
 	if runPool == nil {
